@@ -50,7 +50,11 @@ def _paveba(name):
         alive = lambda Sx, Px: (lambda i: z3.Or(z3.Select(Sx, i), z3.Select(Px, i)))
         # ---- discarding
         S1 = z3.Const("S1", SM.SETSORT)
-        disc = set_is(S1, lambda i: z3.And(z3.Select(S0, i), z3.Not(sp.cert_paveba(S0, U0, REG)(i))))
+        # what the lemma consumes of discarding() (obligations safe/..., mono/... of C02/<algo>.discarding, discharged as
+        # dependencies of this check): S only shrinks, and a design leaves S only with a zero-slack certificate
+        cert = sp.cert_paveba(S0, U0, REG)
+        disc = z3.And(z3.ForAll([e], z3.Implies(z3.Select(S1, e), z3.Select(S0, e))),
+                      z3.ForAll([e], z3.Implies(z3.And(z3.Select(S0, e), z3.Not(z3.Select(S1, e))), cert(e))))
         # same-round chains of discards: the g-maximal dominator of a discarded design survives (finite_argmax instance)
         pd = z3.Int("pd")
         Dset = lambda i: z3.And(active(i), Td(i, pd))
@@ -69,13 +73,21 @@ def _paveba(name):
         I4 = z3.ForAll([x, q], z3.Implies(z3.And(z3.Select(S0, x), z3.Select(P0, q), z3.Not(z3.Select(U0, q))), G(x, q)))
         S2, P2 = z3.Consts("S2 P2", SM.SETSORT)
         new = sp.new(S0, [S0, U0], REG, ae)
-        prom = z3.And(set_is(S2, lambda i: z3.And(z3.Select(S0, i), z3.Not(new(i)))), set_is(P2, lambda i: z3.Or(z3.Select(P0, i), new(i))))
+        # consumed of pareto_updating() (safe/..., mono/... of C03/<algo>.pareto_updating): a design enters P only from S and
+        # only when no active region can cover it; candidates stay in S or move to P; S shrinks, P grows
+        prom = z3.And(z3.ForAll([e], z3.Implies(z3.And(z3.Select(P2, e), z3.Not(z3.Select(P0, e))), new(e))),
+                      z3.ForAll([e], z3.Implies(z3.Select(S0, e), z3.Or(z3.Select(S2, e), z3.Select(P2, e)))),
+                      z3.ForAll([e], z3.Implies(z3.Select(S2, e), z3.Select(S0, e))),
+                      z3.ForAll([e], z3.Implies(z3.Select(P0, e), z3.Select(P2, e))),
+                      z3.ForAll([e], z3.Implies(z3.Select(P2, e), z3.Or(z3.Select(P0, e), z3.Select(S0, e)))))
         inv0 = z3.And(z3.ForAll([e], z3.Implies(z3.Select(U0, e), z3.Select(P0, e))), z3.ForAll([e], z3.Implies(alive(S0, P0)(e), dsg(e))))
         t.prove("I3:a_promoted_design_has_gap_at_most_eps_against_every_design", z3.Implies(z3.And(inv0, I2(S0, P0), I3(P0), I4, prom), I3(P2)))
         t.prove("I2:promotion_keeps_the_active_union", z3.Implies(prom, z3.ForAll([e], alive(S0, P0)(e) == alive(S2, P2)(e))))
         # ---- useful_updating re-establishes I4 for the next round
         U3 = z3.Const("U3", SM.SETSORT)
-        use = set_is(U3, sp.useful(S0, P0, REG, ae))
+        # consumed of useful_updating() (safe/..., mono/...): U keeps every member of P that can still cover a candidate
+        use = z3.And(z3.ForAll([e], z3.Implies(sp.useful(S0, P0, REG, ae)(e), z3.Select(U3, e))),
+                     z3.ForAll([e], z3.Implies(z3.Select(U3, e), z3.Select(P0, e))))
         t.prove("I4:every_candidate_has_gap_at_most_eps_against_members_of_P_that_are_no_longer_useful",
                 z3.Implies(z3.And(inv0, use), z3.ForAll([x, q], z3.Implies(z3.And(z3.Select(S0, x), z3.Select(P0, q), z3.Not(z3.Select(U3, q))), G(x, q)))))
         # ---- final
